@@ -17,6 +17,7 @@ func runC20(c *mon.Ctx) {
 	c.Cases(func(i int, r *mon.Rand) {
 		c20Constructors(c, r.Fork(1))
 		c20NoMutation(c, r.Fork(2))
+		c20NoMutationCustom(c, r.Fork(22))
 		c20Isolation(c, r.Fork(3))
 		// fresh roots on which several goroutines make the first use of colliding
 		// bucket sets at the same moment (all of them miss the empty cache together)
@@ -270,6 +271,23 @@ func c20NoMutation(c *mon.Ctx, r *mon.Rand) {
 	}
 }
 
+// c20NoMutationCustom: deriving pairs from a caller-defined Buckets value must
+// not reorder the caller's object either.
+func c20NoMutationCustom(c *mon.Ctx, r *mon.Rand) {
+	spec := r.ValueSpec(8)
+	for len(spec) < 3 {
+		spec = append(spec, r.FiniteFloat())
+	}
+	u := c20Units(append([]float64(nil), spec...))
+	func() {
+		defer func() { recover() }() // a library that refuses such types is none of C20's business
+		tally.BucketPairs(u)
+	}()
+	if !sameBitsV([]float64(u), spec) {
+		c.Violation("caller-slice-modified", fmt.Sprintf("BucketPairs changed a caller-defined Buckets value: before %v after %v", spec, []float64(u)))
+	}
+}
+
 func sameBitsV(a, b []float64) bool {
 	if len(a) != len(b) {
 		return false
@@ -295,7 +313,24 @@ type c20Set struct {
 
 func c20Family(r *mon.Rand) []c20Set {
 	var fam []c20Set
-	switch r.Intn(4) {
+	switch r.Intn(5) {
+	case 4: // a set and the same set extended by bounds that add nothing to the additive identity
+		if r.Bool() {
+			base := r.ValueSpec(5)
+			for len(base) < 2 {
+				base = append(base, r.FiniteFloat())
+			}
+			long := append(append([]float64(nil), base...), 0)
+			fam = append(fam, c20Set{V: long, Why: "base extended by a bound 0 (adds nothing to the identity)"}, c20Set{V: base, Why: "prefix of the longer set"})
+		} else {
+			base := r.DurationSpec(5)
+			for len(base) < 2 {
+				base = append(base, r.AnyDuration())
+			}
+			d := time.Duration(r.Range(1, 1000000))
+			long := append(append([]time.Duration(nil), base...), d, -d)
+			fam = append(fam, c20Set{IsDur: true, D: long, Why: "base extended by d and -d (adds nothing to the identity)"}, c20Set{IsDur: true, D: base, Why: "prefix of the longer set"})
+		}
 	case 0: // permutations of one value set (+ a duration twin with the same bit patterns)
 		base := r.ValueSpec(8)
 		for len(base) < 2 {
